@@ -13,11 +13,12 @@ sys.path.insert(0, os.path.dirname(os.path.abspath(__file__)))
 from common import *
 import archive_common as ac
 
-STRUCT_KINDS = ["reset_after_whfast", "ias15_reset", "remove_all", "shrink_zero_reappear", "grow_first",
-                "same_time", "negzero"]
+STRUCT_KINDS = ["reset_after_whfast", "single_change", "ias15_reset", "remove_all", "single_change", "shrink_zero_reappear",
+                "grow_first", "same_time", "negzero"]
 K_F1 = "F1:vanished-array-old-size"
 K_F11 = "F11:index-time-when-t-equals-t0"
 K_F19 = "F19:index-builder-trusts-field-size"
+K_F18 = "F18:particles-sign-of-zero"
 
 
 def vstr(v):
@@ -64,7 +65,24 @@ def probe_variant(c, rebound, wd):
     if not f11:
         c.violation(K_F11, "index times of snapshots taken at t=%r,%r,... are %r" % (t5, t5, ts),
                     dict(ops="integrate(5); save; G=2; save; 3 steps; save", index_t=ts))
-    return (f1, f11, False, f19)
+    # F18 probe (sign of zero) and F5 probe (variational configuration compared member-wise)
+    import math
+    fn4 = os.path.join(wd, "p4.bin")
+    sim = rebound.Simulation()
+    sim.integrator = "none"
+    sim.add(m=1.)
+    sim.save_to_file(fn4)
+    sim.particles[0].x = -0.0
+    sim.save_to_file(fn4)
+    s1 = rebound.Simulationarchive(fn4, process_warnings=False)[1]
+    f18 = math.copysign(1.0, s1.particles[0].x) < 0
+    if not f18:
+        c.violation(K_F18, "snapshot restores x=+0.0 where the live particle had x=-0.0", dict(ops="integrator none; add(m=1); save; particles[0].x=-0.0; save; load snapshot 1"))
+    sim = rebound.Simulation()
+    sim.add(m=1.); sim.add(m=1e-3, a=1.)
+    sim.add_variation()
+    f5 = bool(sim.copy() == sim)
+    return (f1, f11, False, f19, f18, f5)
 
 
 _asan = {}
@@ -114,39 +132,97 @@ def first_diff(a, b):
 
 
 def expected_cadence(meta):
-    """declarative cadence: every prescribed time start + j*interval (resp. step start + j*s) that the run
-    reaches gets exactly one automatic snapshot, at the first step boundary at or after it.
-    -> (expected [(steps_done, t_hex)], lagging: bool)"""
-    exp, lag = [], False
-    bounds = []
-    auto = None
+    """declarative cadence: every prescribed time start + j*sign*interval (resp. step start + j*s) that the run
+    reaches gets exactly one automatic snapshot, at the first step boundary at or after it (in the direction of
+    integration: sign = sign of dt, backward integrations included).  The heartbeat runs once per recorded
+    boundary.  -> (expected [(steps_done, t_hex)], lagging: bool, segments for the model tie)"""
+    exp, lag, segs = [], False, []
+    nxt = None
     for e in meta["events"]:
-        if isinstance(e, dict) and "hb" in e:
-            auto = e["auto"]
-            for sd, th in e["hb"]:
-                if not bounds or bounds[-1] != (sd, th):
-                    bounds.append((sd, th))
-    if auto is None or not bounds:
-        return exp, lag
-    mode, val, start = auto
-    if mode == "interval":
-        nxt = h2d(start)
-        for sd, th in bounds:
-            t = h2d(th)
-            if nxt <= t:
-                exp.append((sd, th))
-                nxt += val
-                if nxt <= t:
-                    lag = True      # more than one prescribed time passed within one step: |dt| > |interval|
-    else:
-        nxt = start
-        for sd, th in bounds:
-            if nxt <= sd:
-                exp.append((sd, th))
-                nxt += val
+        if not (isinstance(e, dict) and "hb" in e) or e["auto"] is None:
+            continue
+        mode, val, start = e["auto"]
+        sign = e.get("dir", 1)
+        if nxt is None:
+            nxt = h2d(start) if mode == "interval" else start
+        seg = dict(mode=mode, val=val, sign=sign, next0=nxt, bounds=e["hb"], nnew=0,
+                   next_after=e.get("next_after"), next_step_after=e.get("next_step_after"))
+        for sd, th in e["hb"]:
+            if mode == "interval":
+                t = h2d(th)
+                if sign * nxt <= sign * t:
+                    exp.append((sd, th)); seg["nnew"] += 1
+                    nxt += sign * val
+                    if sign * nxt <= sign * t:
+                        lag = True      # more than one prescribed time passed within one step (|dt| > |interval|),
+                                        # or the direction was reversed with `next` left behind
+            else:
                 if nxt <= sd:
-                    lag = True
-    return exp, lag
+                    exp.append((sd, th)); seg["nnew"] += 1
+                    nxt += val
+                    if nxt <= sd:
+                        lag = True
+        segs.append(seg)
+    return exp, lag, segs
+
+
+def big_archive(c, rebound, exe, V, W, n, stats):
+    """more snapshots than the reader's initial index capacity (1024, grown in chunks of 1024): a tiny simulation,
+    one automatic snapshot per step; count, offsets, times and the last snapshot must be right"""
+    wd = os.path.join(W, "big%d" % n)
+    os.makedirs(wd, exist_ok=True)
+    fn = os.path.join(wd, "big.bin")
+
+    def child():
+        import warnings
+        warnings.filterwarnings("ignore")
+        sim = rebound.Simulation()
+        sim.add(m=1.0)
+        sim.add(m=0.0, x=1.0, vy=1.0)
+        sim.integrator = "leapfrog"
+        sim.dt = 0.01
+        sim.save_to_file(fn, step=1)
+        sim.integrate(sim.dt * (n - 1.5), exact_finish_time=0)
+        sa = rebound.Simulationarchive(fn, process_warnings=False)
+        nb = int(sa.nblobs)
+        last = sa[nb - 1]
+        res = dict(nblobs=nb, t=[ac.hex64(sa.t[i]) for i in range(nb)], offset=[int(sa.offset[i]) for i in range(nb)],
+                   last_t=ac.hex64(last.t), last_steps=int(last.steps_done), live_t=ac.hex64(sim.t), live_steps=int(sim.steps_done),
+                   last_eq=bool(last == sim) or None)
+        json.dump(res, open(os.path.join(wd, "res.json"), "w"))
+    rc = ac.fork_run(child, timeout=120)
+    rep = dict(snapshots=n, rc=rc)
+    if rc != 0 or not os.path.exists(os.path.join(wd, "res.json")):
+        c.violation("big-archive-died", "writing/reading an archive with %d snapshots kills the process (status %s)" % (n, rc), rep)
+        return
+    res = json.load(open(os.path.join(wd, "res.json")))
+    blobs = ac.parse_archive(open(fn, "rb").read())
+    stats["big_archive_blobs"] = max(stats.get("big_archive_blobs", 0), len(blobs))
+    c.count(("big-archive", n), n=len(blobs))
+    rep.update(real_nblobs=res["nblobs"], reparser_blobs=len(blobs))
+    want_t = []
+    t0 = ac.rec_value(blobs[0]["recs"], ac.T_ID) if blobs else None
+    for bl in blobs:
+        t = ac.rec_value(bl["recs"], ac.T_ID)
+        want_t.append((t if t is not None else t0)[::-1].hex())
+    if len(blobs) < n - 2:
+        c.violation("big-archive-written", "only %d blobs in a file after %d automatic snapshots" % (len(blobs), n), rep)
+    if res["nblobs"] != len(blobs):
+        c.violation("big-archive-count", "reader exposes %d of the %d snapshots in the file (index capacity 1024 + k*1024)" % (res["nblobs"], len(blobs)), rep)
+    elif res["offset"] != [b["off"] for b in blobs] or res["t"] != want_t:
+        c.violation("big-archive-index", "index offsets/times of a %d-snapshot archive are wrong" % len(blobs), rep)
+    elif res["last_t"] != res["live_t"] or res["last_steps"] != res["live_steps"]:
+        c.violation("big-archive-last", "last snapshot of a %d-snapshot archive is not the final state (t %s vs %s)" % (len(blobs), res["last_t"], res["live_t"]), rep)
+    # tie: model index of the real file
+    o = run_driver(exe, ["open %s %s" % (V, fn), "capat %d" % (len(blobs) - 1)])
+    got = " ".join(x for x in o[0].replace(":none", ":0000000000000000").split() if not x.startswith("warn="))
+    want = "ok %d " % res["nblobs"] + " ".join("%d:%s" % (a, b) for a, b in zip(res["offset"], res["t"]))
+    if got != want:
+        c.corr_break("model index of a %d-snapshot archive differs from reb_simulationarchive (model %s.., real %s..)" % (len(blobs), got[:40], want[:40]), rep)
+    else:
+        stats["index_equal"] += 1
+    stats["big_archive_capacity_model"] = int(o[1])
+    shutil.rmtree(wd, ignore_errors=True)
 
 
 def run(c):
@@ -164,7 +240,7 @@ def run(c):
 def _run(c, rebound, exe, W):
     v = probe_variant(c, rebound, os.path.join(W, "probe"))
     V = vstr(v)
-    c.cov["source_variant"] = {"F1_fixed": v[0], "F11_fixed": v[1], "F19_fixed": v[3]}
+    c.cov["source_variant"] = {"F1_fixed": v[0], "F11_fixed": v[1], "F19_fixed": v[3], "F18_particles_bitwise": v[4], "F5_varconfig_memberwise": v[5]}
     c.log("source behaves as model variant", V)
     nh = 2500 if c.thorough else 260
     maxapp = 25 if c.thorough else 10
@@ -185,12 +261,16 @@ def _run(c, rebound, exe, W):
                       "delta law stated for an exact comparison and, for any comparison, up to what it calls 'same'"]
     stats = dict(histories=0, appends=0, bytes_equal=0, index_equal=0, snapshots_decoded=0, child_crash=0, skipped_ops=0,
                  vanish_histories=0, appear_histories=0, shrink_zero=0, same_t0=0, auto_histories=0, auto_snapshots=0,
-                 lagging=0, reader_overflow=0, model_undefined=0, eq_checked=0, fieldwise_checked=0, link_true=0, merges=0, nocapture=0)
+                 lagging=0, auto_forward=0, auto_backward=0, auto_mixed=0, cadence_segments_model_equal=0, single_change_snapshots=0, reader_overflow=0, model_undefined=0, eq_checked=0, fieldwise_checked=0, link_true=0, merges=0, nocapture=0)
     integ_hist = {}
     hazards = {}
+    change_kinds = {}
     outside = {}
     kinds_hist = {}
     t_start = time.time()
+    for nbig in ((1030, 2100, 3100) if c.thorough else (1030, 2100)):
+        big_archive(c, rebound, exe, V, W, nbig, stats)
+    c.log("big archives done")
     batch = []
     hi = 0
 
@@ -296,6 +376,11 @@ def _run(c, rebound, exe, W):
                 firstvan = k
             van |= ids0 - idk
             app |= idk - ids0
+        if hist["structural"] == "single_change":
+            stats["single_change_snapshots"] += len([e for e in meta["events"] if isinstance(e, str) and e.startswith("change:")])
+            for e in meta["events"]:
+                if isinstance(e, str) and e.startswith("change:"):
+                    change_kinds[e] = change_kinds.get(e, 0) + 1
         if van:
             stats["vanish_histories"] += 1
         if app:
@@ -362,7 +447,7 @@ def _run(c, rebound, exe, W):
                     except Exception:
                         szero = False
                 if szero:
-                    c.violation("F18:particles-sign-of-zero", "snapshot %d restores +0.0 where the live particle coordinate was -0.0 (reb_particle_diff compares with !=)" % k, rep)
+                    c.violation(K_F18, "snapshot %d restores +0.0 where the live particle coordinate was -0.0 (reb_particle_diff compares with !=)" % k, rep)
                 else:
                     c.violation("snapshot-differs:%s" % key[0], "snapshot %d differs from the live state in field ids %s (file) / %s (loader)" % (k, dd[:8], dl[:8]), rep)
             e = back["eq"][k] if k < len(back.get("eq", [])) else None
@@ -375,13 +460,34 @@ def _run(c, rebound, exe, W):
         # (d) automatic cadence
         if hist["auto"]:
             stats["auto_histories"] += 1
-            exp, lag = expected_cadence(meta)
+            exp, lag, segs = expected_cadence(meta)
             got = [(a["steps"], a["t"]) for a in meta["appends"] if a["kind"] == "auto"]
             stats["auto_snapshots"] += len(got)
+            dirs = tuple(sg["sign"] for sg in segs)
+            stats["auto_backward" if all(d < 0 for d in dirs) and dirs else "auto_mixed" if len(set(dirs)) > 1 else "auto_forward"] += 1
             if lag:
                 stats["lagging"] += 1
             elif got != exp:
-                c.violation("cadence:%s" % hist["auto"], "automatic snapshots at (steps,t) %s, prescribed cadence gives %s" % (got[:8], exp[:8]), rep)
+                c.violation("cadence:%s" % hist["auto"], "automatic snapshots at (steps,t) %s, prescribed cadence gives %s (directions %s)" % (got[:8], exp[:8], dirs), rep)
+            # tie: the Lean heartbeat model (same definitions as in the cadence theorems, on IEEE doubles) run over the
+            # recorded step boundaries must give the number of snapshots of every integrate() call and the persisted
+            # cadence state after it (lagging runs included)
+            lines = []
+            evs = [e for e in meta["events"] if isinstance(e, dict) and "hb" in e and e["auto"] is not None]
+            for sg in segs:
+                if sg["mode"] == "interval":
+                    lines.append("cad %d %s %s %s" % (sg["sign"], d2h(sg["val"]), d2h(sg["next0"]), " ".join(th for _, th in sg["bounds"])))
+                else:
+                    lines.append("cadstep %d %d %s" % (sg["val"], sg["next0"], " ".join(str(sd) for sd, _ in sg["bounds"])))
+            outs = run_driver(exe, lines) if lines else []
+            for sg, e, o in zip(segs, evs, outs):
+                flags, nx = o.split()
+                real_next = sg["next_after"] if sg["mode"] == "interval" else str(sg["next_step_after"])
+                if flags.count("1") != e["nnew"] or nx != real_next:
+                    c.corr_break("heartbeat model: %d snapshots, next=%s; real code: %d snapshots, next=%s (history %d, sign %d)" % (
+                        flags.count("1"), nx, e["nnew"], real_next, h["i"], sg["sign"]), dict(history=hist, segment={k: v for k, v in sg.items() if k != "bounds"}))
+                else:
+                    stats["cadence_segments_model_equal"] += 1
 
     while hi < nh and time.time() - t_start < budget:
         rng = c.rng.fork()
@@ -453,6 +559,7 @@ def _run(c, rebound, exe, W):
     if batch:
         flush(batch)
     c.cov.update(stats)
+    c.cov["single_change_kinds"] = change_kinds
     c.cov["generator_hazards_dropped"] = hazards
     c.cov["memory_errors_outside_the_archive_code"] = outside
     c.cov["first_integrator_histogram"] = integ_hist
